@@ -79,6 +79,10 @@ def check_bank(mtjs, cfg):
     repeated = False
     try:
         for k, mt in enumerate(mts):
+            if (k + len(mts)) % 2 == 0:
+                # a refused tree in the history (one constituent emptied by hand): nothing of it may be counted
+                from ..bridge import refused_extract
+                refused_extract(mt, g, lex)
             grammar.extract(build(mt), g, lex)
             if k < len(mts) - 1 and cfg is not None:
                 run_binarize(g, cfg)        # the grammar is also used while it is still growing
